@@ -221,6 +221,22 @@ def check_item(spec):
             continue
         res["findings"].append({"kind": kind, "what": "%d circuits, e.g. %s" % (len(lst), " || ".join(lst[:2])), "cex": {"circuits": lst[:5]}, "replayed": True})
     res["circuits"] = n
+    # sensitivity: a decompiled expression with one negation added must be refuted
+    try:
+        qc0 = circorp.build([["x", [0]], ["cx", [0, 1]], ["ccx", [0, 1, 2]]], 3)
+        from qlasskit.decompiler import Decompiler
+        from sympy import Not
+
+        sec = list(Decompiler().decompile(qc0))[0]
+        names = ["q0", "q1", "q2"]
+        init = [z3.Bool(x) for x in names]
+        fin = boolq.simcirc(sec.gates, init)
+        env = dict(zip(names, init))
+        sname, e = sec.expressions[-1]
+        i = names.index(sname.name)
+        res["negctl"] = st.check(solver, z3.Xor(fin[i], boolq.s2z(Not(e), env))) == "sat"
+    except Exception:
+        res["negctl"] = False
     return st.into(res)
 
 
@@ -238,6 +254,7 @@ def coverage(specs, results):
         "circuits_by_family": dict(fam),
         "distinct_nontrivial": total,
         "evaluations": total,
+        "negative_controls": {"run": sum(1 for r in results if "negctl" in r), "detected": sum(1 for r in results if r.get("negctl"))},
         "exhaustive": True,
         "rule": "items are batches of circuits; every circuit is decompiled and each section is compared with the symbolic run of its gates (one query per section); the enumerated family is complete up to the stated length",
     }
